@@ -104,7 +104,9 @@ type c19World struct {
 	mu       sync.Mutex
 	uploads  []c19Upload
 	request  int
-	midHook  func() // runs once inside the first segment upload of the current request
+	midHook    func() // injected lease loss of the current request, runs once at midTrigger
+	midTrigger string // "upload": inside the first segment upload; "list": inside the S3 listing of a cold partition's restore; "txn": right after an acquire transaction was answered
+	cancelClient context.CancelFunc
 	hookErr  error
 	trace    []string
 
@@ -197,11 +199,23 @@ func (e *c19Env) newWorld(ttl2 bool) (*c19World, error) {
 		_ = store.Close()
 		return nil, fmt.Errorf("newHandler did not create a partition lease manager over an EtcdStore")
 	}
+	// The handler's lease manager is rebuilt (same type, same broker id) over a client whose KV
+	// tells the harness when an acquire transaction has been answered, so that a lease loss can
+	// be placed between that answer and the recording of ownership. TTL: newHandler's default,
+	// or 4 s in expiry cases so that a revoked session is noticed within about a second
+	// (keep-alive period = TTL/3).
+	base := store.EtcdClient()
+	gctx, gcancel := context.WithCancel(context.Background())
+	w.cancelClient = gcancel
+	gcli := clientv3.NewCtxClient(gctx)
+	gcli.KV = &c19KV{KV: base.KV, w: w}
+	gcli.Lease = c19NoCloseLease{base.Lease}
+	gcli.Watcher = base.Watcher
+	ttl := 0
 	if ttl2 {
-		// same manager type and broker id, only a shorter TTL (4 s) so that a revoked session is
-		// noticed within about a second (keep-alive period = TTL/3)
-		w.h.leaseManager = metadata.NewPartitionLeaseManager(store.EtcdClient(), metadata.PartitionLeaseConfig{BrokerID: "1", LeaseTTLSeconds: 4, Logger: c19Quiet})
+		ttl = 4
 	}
+	w.h.leaseManager = metadata.NewPartitionLeaseManager(gcli, metadata.PartitionLeaseConfig{BrokerID: "1", LeaseTTLSeconds: ttl, Logger: c19Quiet})
 	for i, cli := range e.foreign {
 		w.foreign = append(w.foreign, metadata.NewPartitionLeaseManager(cli, metadata.PartitionLeaseConfig{BrokerID: fmt.Sprintf("%d", i+2), LeaseTTLSeconds: 30, Logger: c19Quiet}))
 	}
@@ -211,6 +225,11 @@ func (e *c19Env) newWorld(ttl2 bool) (*c19World, error) {
 	// unknown, ensureTopic says "exists", retry) - an incidental defect outside C19.
 	w.universe = []c19Part{{"t1", 0}, {"t1", 1}, {"t1", 2}, {"t2", 0}, {"t2", 1}, {"u-unknown", 0}, {"v-unknown", 0}}
 	w.obj.OnOp = func(op vfkit.ObjOp) {
+		if op.Kind == "list" {
+			// getPartitionLog restoring a cold partition from S3
+			w.fire("list")
+			return
+		}
 		if op.Kind != "put-segment" {
 			return
 		}
@@ -225,15 +244,63 @@ func (e *c19Env) newWorld(ttl2 bool) (*c19World, error) {
 			w.hookErr = err
 		}
 		w.uploads = append(w.uploads, c19Upload{Part: part, Owned: owned, KeyVal: vals[part.String()], Request: w.request})
-		hook := w.midHook
-		w.midHook = nil
 		w.mu.Unlock()
-		if hook != nil {
-			hook()
-		}
+		w.fire("upload")
 	}
 	return w, nil
 }
+
+// fire runs the request's injected lease loss once, if it is armed for this trigger point.
+func (w *c19World) fire(trigger string) {
+	w.mu.Lock()
+	hook := w.midHook
+	if hook == nil || w.midTrigger != trigger {
+		w.mu.Unlock()
+		return
+	}
+	w.midHook = nil
+	w.mu.Unlock()
+	hook()
+}
+
+// c19KV passes everything through and reports when a transaction that wrote a partition
+// lease key has been answered (trigger point "txn": the acquire is committed in etcd but
+// the lease manager has not recorded ownership yet).
+type c19KV struct {
+	clientv3.KV
+	w *c19World
+}
+
+func (k *c19KV) Txn(ctx context.Context) clientv3.Txn { return &c19Txn{Txn: k.KV.Txn(ctx), w: k.w} }
+
+type c19Txn struct {
+	clientv3.Txn
+	w      *c19World
+	hasPut bool
+}
+
+func (t *c19Txn) If(cs ...clientv3.Cmp) clientv3.Txn { t.Txn = t.Txn.If(cs...); return t }
+func (t *c19Txn) Then(ops ...clientv3.Op) clientv3.Txn {
+	for _, op := range ops {
+		if op.IsPut() && strings.HasPrefix(string(op.KeyBytes()), metadata.PartitionLeasePrefix()+"/") {
+			t.hasPut = true
+		}
+	}
+	t.Txn = t.Txn.Then(ops...)
+	return t
+}
+func (t *c19Txn) Else(ops ...clientv3.Op) clientv3.Txn { t.Txn = t.Txn.Else(ops...); return t }
+func (t *c19Txn) Commit() (*clientv3.TxnResponse, error) {
+	resp, err := t.Txn.Commit()
+	if err == nil && resp.Succeeded && t.hasPut {
+		t.w.fire("txn")
+	}
+	return resp, err
+}
+
+type c19NoCloseLease struct{ clientv3.Lease }
+
+func (c19NoCloseLease) Close() error { return nil }
 
 func (w *c19World) close() {
 	w.h.leaseManager.ReleaseAll()
@@ -242,6 +309,9 @@ func (w *c19World) close() {
 	}
 	for _, f := range w.foreign {
 		f.ReleaseAll()
+	}
+	if w.cancelClient != nil {
+		w.cancelClient()
 	}
 	_ = w.store.Close()
 }
@@ -300,7 +370,26 @@ type c19ReqResult struct {
 
 // produce sends one request and applies the oracle. states maps each requested partition
 // to its lease state as established by the harness before the request.
-func (w *c19World) produce(parts []c19Part, acks int16, midExpire bool, foreignTakes bool) ([]c19ReqResult, string, error) {
+// c19Inject places a lease loss inside the request. Trigger: "upload" | "list" | "txn" (see
+// c19World.midTrigger). Loss: "expire" (etcd session revoked and noticed) or "releaseAll"
+// (graceful shutdown while the request is in flight).
+type c19Inject struct {
+	Trigger      string
+	Loss         string
+	ForeignTakes bool
+}
+
+func (w *c19World) ownsAny() bool {
+	for _, p := range w.universe {
+		if w.h.leaseManager.Owns(p.Topic, p.P) {
+			return true
+		}
+	}
+	return false
+}
+
+func (w *c19World) produce(parts []c19Part, acks int16, inj c19Inject) ([]c19ReqResult, string, error) {
+	midExpire, foreignTakes := inj.Trigger != "", inj.ForeignTakes
 	w.mu.Lock()
 	w.request++
 	reqNo := w.request
@@ -328,10 +417,30 @@ func (w *c19World) produce(parts []c19Part, acks int16, midExpire bool, foreignT
 	midDone := false
 	if midExpire {
 		w.mu.Lock()
+		w.midTrigger = inj.Trigger
 		w.midHook = func() {
-			// inside the first segment upload of this request: the broker's session ends and
-			// the broker notices; optionally a foreign broker takes over the remaining partitions
-			did, err := w.expireSelf()
+			// at the trigger point the broker loses its leases (session ends and the broker
+			// notices, or ReleaseAll); optionally a foreign broker takes over the partitions
+			var did bool
+			var err error
+			switch {
+			case inj.Loss == "releaseAll":
+				// the leases die with the session ReleaseAll closes: that is the harness' doing
+				_, _, _ = w.leaseKeys() // notes the leases currently attached to this broker's keys
+				w.h.leaseManager.ReleaseAll()
+				w.mu.Lock()
+				for id := range w.selfLeases {
+					w.revoked[id] = true
+				}
+				w.mu.Unlock()
+				did = true
+			case inj.Trigger == "txn" && !w.ownsAny():
+				// nothing owned yet: there is no way to see that the manager has noticed the
+				// loss of its session, and the unnoticed window is not counted - no injection
+				did = false
+			default:
+				did, err = w.expireSelf()
+			}
 			if err != nil {
 				w.mu.Lock()
 				w.hookErr = err
@@ -339,6 +448,9 @@ func (w *c19World) produce(parts []c19Part, acks int16, midExpire bool, foreignT
 				return
 			}
 			midDone = did
+			if did {
+				w.trace = append(w.trace, fmt.Sprintf("[lease loss %s at %s]", inj.Loss, inj.Trigger))
+			}
 			if did && foreignTakes {
 				for _, p := range parts {
 					_ = w.foreign[0].Acquire(context.Background(), p.Topic, p.P)
@@ -521,16 +633,31 @@ func TestVF_C19_Produce(t *testing.T) {
 				}
 			}
 			acks := rapid.SampledFrom([]int16{-1, 1, -1, 1, 0}).Draw(rt, "acks")
-			midExpire := expiryCase && len(parts) > 1 && rapid.IntRange(0, 2).Draw(rt, "midExpire") == 0
-			foreignTakes := midExpire && rapid.Bool().Draw(rt, "foreignTakes")
-			if midExpire && known {
+			// lease loss inside the request: by session expiry (expiry cases, costs real time) or by
+			// a shutdown ReleaseAll (only in the last request: the manager is closed afterwards)
+			var inj c19Inject
+			var losses []string
+			if expiryCase {
+				losses = append(losses, "expire")
+			}
+			if q == nreq-1 {
+				losses = append(losses, "releaseAll")
+			}
+			if len(losses) > 0 && rapid.IntRange(0, 2).Draw(rt, "injectLoss") > 0 {
+				inj.Loss = rapid.SampledFrom(losses).Draw(rt, "loss")
+				inj.Trigger = rapid.SampledFrom([]string{"upload", "list", "list", "txn", "txn"}).Draw(rt, "trigger")
+				inj.ForeignTakes = rapid.Bool().Draw(rt, "foreignTakes")
+			}
+			if inj.Trigger != "" && known {
 				st.ExcludedCase(c19Finding)
-				midExpire, foreignTakes = false, false
+				inj = c19Inject{}
 			}
-			if midExpire {
-				st.Class("session-expiry-during-request")
+			res, v, err := w.produce(parts, acks, inj)
+			if inj.Trigger != "" && len(w.trace) >= 2 && strings.HasPrefix(w.trace[len(w.trace)-2], "[lease loss") {
+				st.Class("lease-loss-" + inj.Loss + "-at-" + inj.Trigger)
+				nontrivial = true
+				fpParts = append(fpParts, "loss:"+inj.Loss+"@"+inj.Trigger)
 			}
-			res, v, err := w.produce(parts, acks, midExpire, foreignTakes)
 			if errors.Is(err, errC19Spontaneous) {
 				st.Class("spontaneous-lease-expiry(case skipped)")
 				rt.Skip("a lease of the broker expired without the harness revoking it")
@@ -587,7 +714,7 @@ func TestVF_C19_Witness(t *testing.T) {
 	defer w.close()
 	// both partitions free; the session expires (and a foreign broker takes over) while the
 	// first partition's segment is being uploaded; the handler goes on to the second one.
-	_, v, err := w.produce([]c19Part{{"t1", 0}, {"t1", 1}}, -1, true, true)
+	_, v, err := w.produce([]c19Part{{"t1", 0}, {"t1", 1}}, -1, c19Inject{Trigger: "upload", Loss: "expire", ForeignTakes: true})
 	if err != nil {
 		fmt.Println("VF-INCONCLUSIVE:", err)
 		t.Fatalf("inconclusive: %v", err)
